@@ -95,7 +95,34 @@ def merge_loops(facts):
             walk(L["b"], lambda n: skips.append(n["k"]) if n.get("k") in ("If", "Continue", "Break", "Cond", "Switch") else None)
             folds = []
             walk(L["b"], lambda n: folds.append(1) if (n.get("k") == "Call" and (n.get("cname") in ("processValue",) or (n.get("callee") or "").startswith("std::max"))) else None)
-            if skips:
+            # extent: the loop runs over the SOURCE's registers - a range-for over the source array, or a counted loop whose bound
+            # comes from the source's lg_k (from this array's own lg_k only where the two are known to be equal)
+            ext_bad = None
+            if L.get("k") == "For" and L.get("c") is not None:
+                from astu import single_assignment_locals
+                sal = single_assignment_locals(fn)
+                own, foreign, seen_l = [], [], set()
+
+                def bv(x):
+                    if x.get("k") == "Call" and x.get("cname") == "getLgConfigK":
+                        (own if strip(x.get("obj") or {"k": "This"}).get("k") == "This" else foreign).append(x)
+                    if x.get("k") == "Member" and x.get("f") == "lgConfigK_":
+                        (own if strip(x.get("b") or {}).get("k") == "This" else foreign).append(x)
+                    if x.get("k") == "Ref" and x.get("d") in sal and x.get("d") not in seen_l:
+                        seen_l.add(x["d"])
+                        walk(sal[x["d"]], bv)
+                walk(L["c"], bv)
+                if own and not foreign:
+                    eq = False
+                    for lit in reach(body, L):
+                        t = txt(lit).replace(" ", "")
+                        if strip(lit).get("k") == "Bin" and strip(lit).get("op") == "==" and t.count("getLgConfigK()") == 2:
+                            eq = True
+                    if not eq:
+                        ext_bad = txt(L["c"], sal)
+            if ext_bad:
+                out.append(ob("hll.merge-loop", key, L["loc"], "violated", "the merge loop is bounded by `%s`, this array's own size, where the source may be larger: only the first 2^lg_k source registers are folded in, the rest of a larger source is dropped (estimate low by the ratio of the sizes)" % ext_bad, fn["qname"]))
+            elif skips:
                 out.append(ob("hll.merge-loop", key, L["loc"], "violated", "merge loop body contains %s: some source slots are skipped conditionally (a raw value that looks empty is not empty once curMin > 0)" % "/".join(sorted(set(skips))), fn["qname"]))
             elif not folds:
                 out.append(ob("hll.merge-loop", key, L["loc"], "unrecognised", "no max / processValue fold found in the loop body", fn["qname"]))
@@ -803,6 +830,9 @@ def own_size_masks(facts):
                 t = txt(ini) if ini is not None else "?"
                 own = False
                 foreign = []
+                from astu import single_assignment_locals
+                sal = single_assignment_locals(fn)
+                seen_l = set()
 
                 def v(x):
                     nonlocal own
@@ -814,6 +844,9 @@ def own_size_masks(facts):
                             foreign.append(txt(o))
                     if x.get("k") == "Member" and x.get("f") == "lgConfigK_" and strip(x["b"]).get("k") == "This":
                         own = True
+                    if x.get("k") == "Ref" and x.get("d") in sal and x.get("d") not in seen_l:
+                        seen_l.add(x["d"])        # `k = 1 << getLgConfigK(); mask = k - 1`: read through hoisted locals
+                        walk(sal[x["d"]], v)
                 if ini is not None:
                     walk(ini, v)
                 if own and not foreign:
